@@ -794,13 +794,13 @@ def jobs(tier: str, seed: int):
     # (deep domains on the single-axis patterns; axes are handled independently by the code, paths multiply)
     if th:
         pats = [("i", 6, 3), ("s", 6, 3), ("e", 6, 3), ("is", 5, 2), ("si", 5, 2), ("ie", 6, 3), ("se", 6, 3), ("Ei", 6, 3),
-                ("Es", 6, 3), ("ss", 2, 1), ("sE", 4, 2), ("iEi", 4, 1)]
+                ("Es", 6, 3), ("sE", 4, 2), ("iEi", 4, 1)]      # ("ss": two unbounded slices do not finish within 50 min even at length 2 -- outside)
     else:
         pats = [("i", 6, 3), ("s", 6, 3), ("e", 6, 3), ("is", 3, 1), ("ie", 4, 2), ("se", 4, 2), ("Ei", 6, 3), ("Es", 5, 2)]
     for pat, ml, ms in pats:
         add("index", kinds=pat, maxlen=ml, maxstep=ms)
     for op in ["sum", "amax", "prod", "all"] + (["amin", "any"] if th else []):
-        for nd, nax in [(1, 1), (2, 1), (3, 1), (2, 0), (2, 2), (0, 0)] + ([(3, 2), (1, 2), (3, 0)] if th else []):
+        for nd, nax in [(1, 1), (2, 1), (3, 1), (2, 0), (2, 2), (0, 0)] + ([(3, 2), (3, 0)] if th else []):     # ((1, 2): every input is rejected by both sides -- vacuous)
             if op != "sum" and not th and (nd, nax) not in [(2, 1), (2, 2)]:
                 continue
             add("reduction", op=op, nd=nd, naxes=nax, maxlen=4)
@@ -811,7 +811,7 @@ def jobs(tier: str, seed: int):
             add("join", op=op, nd=nd, narr=narr, maxlen=3 if nd * narr <= 4 else 2)
     for o, n in [(1, 1), (1, 2), (2, 1), (2, 2), (0, 1), (1, 0)] + ([(2, 3), (3, 2), (3, 1), (0, 2)] if th else []):
         for order in ("C", "F") if th else ("C",):
-            add("reshape", old_nd=o, new_nd=n, order=order, maxlen=3 if th or o + n <= 3 else 2)
+            add("reshape", old_nd=o, new_nd=n, order=order, maxlen=(3 if o + n <= 4 else 2) if th else (3 if o + n <= 3 else 2))
     for which, nds in [("roll", (1, 2, 3)), ("expand_dims", (0, 1, 2)), ("expand_dims2", (0, 1, 2)), ("squeeze", (1, 2, 3)),
                        ("squeeze_none", (0, 2, 3)), ("transpose", (1, 2, 3)), ("broadcast_to", (0, 1, 2)),
                        ("broadcast_to_same", (1, 2, 3)), ("T", (0, 2, 3)), ("full", (0, 2)), ("zeros", (1, 3))]:
@@ -819,7 +819,7 @@ def jobs(tier: str, seed: int):
             big = which.startswith("broadcast_to") and nd >= 2
             if which == "broadcast_to" and nd >= 2 and not th:
                 continue
-            add("misc", which=which, nd=nd, maxlen=(1 if nd == 3 else 2) if big else (4 if nd < 3 else 3))
+            add("misc", which=which, nd=nd, maxlen=(1 if nd == 3 or which == "broadcast_to" else 2) if big else (4 if nd < 3 else 3))
     for spec in _ES if th else _ES[:6]:
         add("einsum_shapes", spec=spec, maxlen=3 if len(spec) < 11 else 2)
     for fn in ("matmul", "dot"):
